@@ -723,8 +723,8 @@ func init() {
 			{Name: "levels-x-neighbours", Quick: 13, Thorough: 13, Exhaustive: true, Run: runC05Levels},
 			{Name: "level-pairs", Quick: 169, Thorough: 169, Exhaustive: true, Run: runC05Pairs},
 			{Name: "prefix-postfix", Quick: 1, Thorough: 1, Exhaustive: true, Run: runC05PrePost},
-			{Name: "random-mixed", Quick: 50000, Thorough: 500000, Run: runC05Random},
-			{Name: "histories", Quick: 10000, Thorough: 100000, Run: runC05History},
+			{Name: "random-mixed", Quick: 200000, Thorough: 1000000, Run: runC05Random},
+			{Name: "histories", Quick: 60000, Thorough: 400000, Run: runC05History},
 		},
 	})
 }
